@@ -235,6 +235,34 @@ def run(tier, seed, rng):
             failures.append(Failure(what='; '.join((probs + diffs)[:3])[:500], case=case, impl=(probs + diffs)[:8], model='Frame.step_env',
                                     oracle_rejects=bool(probs), correspondence=CORRESPONDENCES[0 if any('step' in p and ('gradient' in p or 'parameter' in p or 'buffer' in p) for p in probs) else 1],
                                     theorems=THEOREMS, oracle='the snapshots themselves (property text)'))
+    # ---- "finite whenever its inputs are finite", at the edge of the factor dtype's range: float16 factors, thousands of rows per
+    # pass, activations of magnitude ~4 (rows * mean(a^2) is above the float16 maximum, every entry of the batch second moment is not) ----
+    for k in range(4 if tier == 'quick' else 24):
+        torch.manual_seed(seed + 5000 + k)
+        nin, nout = rng.randint(2, 8), rng.randint(2, 6)
+        B, T = rng.choice([(16, 512), (8, 1024), (32, 512)])
+        method = rng.choice(['eigen', 'inverse'])
+        model = torch.nn.Sequential(torch.nn.Linear(nin, nout), torch.nn.Tanh(), torch.nn.Linear(nout, 2))
+        case = {'kind': 'fp16-range', 'nin': nin, 'nout': nout, 'rows': B * T, 'method': method, 'seed': seed + 5000 + k}
+        probs = []
+        try:
+            p = KFACPreconditioner(model, factor_dtype=torch.float16, compute_method=method, kl_clip=None, damping=0.01)
+            for st in range(2):
+                model.zero_grad()
+                x = torch.randn(B, T, nin) * 4.0
+                (model(x) * torch.randn(B, T, 2)).sum().div(B * T).backward()
+                fin_in = all(bool(torch.isfinite(q.grad).all()) for q in model.parameters())
+                p.step()
+                for nme, q in model.named_parameters():
+                    if fin_in and not bool(torch.isfinite(q.grad).all()):
+                        probs.append(f'step {st}: gradient of {nme} is not finite after step() although every input was '
+                                     f'({int((~torch.isfinite(q.grad)).sum())}/{q.grad.numel()} entries; float16 factors, {B * T} rows)')
+        except Exception as e:  # noqa: BLE001
+            probs.append(f'raised {type(e).__name__}: {e}'[:300])
+        cov.add(case, True, sample_cap=1); cov.count('kind', 'fp16-range')
+        if probs:
+            failures.append(Failure(what='; '.join(probs[:3])[:500], case=case, impl=probs[:8], model='Frame.step_env', oracle_rejects=True,
+                                    correspondence=CORRESPONDENCES[0], theorems=THEOREMS, oracle='finite gradients in, finite gradients out (property text)'))
     return cov, failures
 
 
